@@ -86,6 +86,10 @@ def auto_justify(site):
             cs = _consts_of(b)
             if cs is not None and all(0 <= c <= 10 for c in cs) and " Mul " not in a and "Shl" not in a:
                 return "increment of a usize counter by a constant <= 10: the counter is bounded by the length of the input text (counts < 2^31 by the property's quantifier)"
+    if k in ("assert:Overflow(Shl)", "assert:Overflow(Shr)") and len(ops) == 2:
+        cs = _consts_of(ops[1])
+        if cs is not None and all(0 <= c < 32 for c in cs):
+            return "shift by a constant smaller than the bit width of the operand"
     if k in ("assert:DivisionByZero", "assert:RemainderByZero"):
         from .origin import walk
         c = site.get("cond")
